@@ -249,16 +249,19 @@ func cmdCheck(args []string) int {
 						}
 					}
 					hr.CrossCheck = fmt.Sprintf("%s vs %s: completed %d/%d vcs %d/%d discharged %d/%d", cfg.Solver, cfg2.Solver, a.Completed, b.Completed, a.VCs, b.VCs, a.VCUnsat+a.VCConst, b.VCUnsat+b.VCConst)
-					if !same && len(x2.Inconcl) == 0 && len(x.Inconcl) == 0 {
+					if !same && len(x2.Inconcl) == 0 && len(x.Inconcl) == 0 && len(x2.Violations) == len(x.Violations) {
 						hr.Err = "solvers disagree: " + hr.CrossCheck
 					}
 					if len(x2.Inconcl) > 0 {
-						// partial second run: every violation label it met must be one the first run reported too
-						hr.CrossCheck += fmt.Sprintf(" (second run incomplete within %s: no disagreement on the part explored)", cfg2.Deadline.Round(time.Second))
-						for k := range x2.ViolationCounts() {
-							if x.ViolationCounts()[k] == 0 && len(x.Inconcl) == 0 {
-								hr.Err = "solvers disagree: " + cfg2.Solver + " reports a violation of " + k + " that " + cfg.Solver + " does not"
-							}
+						hr.CrossCheck += fmt.Sprintf(" (second run incomplete within %s)", cfg2.Deadline.Round(time.Second))
+					}
+					// a violation only the second solver reports goes through the same native replay as any other:
+					// confirmed, it is a finding (and a disagreement worth knowing about); not confirmed, it is dropped
+					// with a note (the first solver discharged that condition, and the real code agrees with it)
+					for _, v2 := range x2.Violations {
+						if x.ViolationCounts()[v2.Kind+":"+v2.Label] == 0 && x.ViolationCounts()[v2.Label] == 0 {
+							v2.SecondSolverOnly = true
+							x.Violations = append(x.Violations, v2)
 						}
 					}
 				}
@@ -288,6 +291,7 @@ func cmdCheck(args []string) int {
 		inconclusive = append(inconclusive, "leaf model disagrees with the real function: "+f)
 	}
 	nViol := 0
+	var notes []string
 	knownSeen := map[string]bool{}
 	for _, hr := range results {
 		if hr.Err != "" {
@@ -304,6 +308,10 @@ func cmdCheck(args []string) int {
 			st := hr.Confirm[v]
 			if hr.Spec.ModelOnly {
 				st = "confirmed" // stated in the harness header: stub-dependent, reported from the solver model
+			}
+			if st != "confirmed" && v.SecondSolverOnly {
+				notes = append(notes, fmt.Sprintf("NOTE property=%s %s: the cross-check solver produced a counterexample for %q that the first solver excludes and that does not reproduce natively (%s); dropped. inputs: %s", *prop, hr.Spec.Name, v.Label, st, drawsSummary(v.Draws)))
+				continue
 			}
 			if st != "confirmed" {
 				inconclusive = append(inconclusive, fmt.Sprintf("%s: counterexample for %q did not reproduce natively (%s)", hr.Spec.Name, v.Label, st))
@@ -336,6 +344,9 @@ func cmdCheck(args []string) int {
 		exit = 1
 	}
 	for _, l := range lines {
+		fmt.Println(l)
+	}
+	for _, l := range notes {
 		fmt.Println(l)
 	}
 	if len(inconclusive) > 0 {
